@@ -13,6 +13,7 @@ import (
 	"fmt"
 	"io"
 	"net"
+	"os"
 	"strconv"
 	"strings"
 	"sync"
@@ -22,17 +23,37 @@ import (
 	"verif/harness/vh"
 )
 
-const (
-	endEOFWithData = iota // the last fragment is returned together with io.EOF
-	endEOFAfter           // (0, io.EOF) after the last fragment
-	endErrWithData        // the last fragment is returned together with an error
-	endErrAfter           // (0, error) after the last fragment
-	endModes
-)
+// timeoutErr: what a read deadline produces (net.Error with Timeout() and Temporary() true)
+type timeoutErr struct{}
 
-var endNames = []string{"eof-with-data", "eof-after-data", "error-with-data", "error-after-data"}
+func (timeoutErr) Error() string   { return "i/o timeout" }
+func (timeoutErr) Timeout() bool   { return true }
+func (timeoutErr) Temporary() bool { return true }
+
+var _ net.Error = timeoutErr{}
 
 var errReset = errors.New("connection reset by peer")
+
+// the ways a connection can end: each error either together with the last bytes or after them
+var endErrs = []error{io.EOF, errReset, timeoutErr{}, os.ErrDeadlineExceeded, io.ErrUnexpectedEOF}
+var endErrNames = []string{"eof", "reset", "net-timeout", "deadline-exceeded", "unexpected-eof"}
+
+const endModes = 10 // 2*i = endErrs[i] together with the last bytes, 2*i+1 = after them
+
+const (
+	endEOFWithData = 0
+	endEOFAfter    = 1
+	endErrAfter    = 3
+)
+
+func endWithData(end int) bool { return end%2 == 0 }
+func endErr(end int) error     { return endErrs[(end/2)%len(endErrs)] }
+func endName(end int) string {
+	if endWithData(end) {
+		return endErrNames[(end/2)%len(endErrs)] + "-with-data"
+	}
+	return endErrNames[(end/2)%len(endErrs)] + "-after-data"
+}
 
 type fragConn struct {
 	data  []byte
@@ -47,10 +68,7 @@ func (c *fragConn) Read(p []byte) (int, error) {
 		return 0, nil
 	}
 	if c.pos >= len(c.data) {
-		if c.end == endErrAfter || c.end == endErrWithData {
-			return 0, errReset
-		}
-		return 0, io.EOF
+		return 0, endErr(c.end) // every later Read reports the same end
 	}
 	k := c.frags[c.fi%len(c.frags)]
 	c.fi++
@@ -62,13 +80,8 @@ func (c *fragConn) Read(p []byte) (int, error) {
 	}
 	copy(p, c.data[c.pos:c.pos+k])
 	c.pos += k
-	if c.pos == len(c.data) {
-		switch c.end {
-		case endEOFWithData:
-			return k, io.EOF
-		case endErrWithData:
-			return k, errReset
-		}
+	if c.pos == len(c.data) && endWithData(c.end) {
+		return k, endErr(c.end)
 	}
 	return k, nil
 }
@@ -136,7 +149,7 @@ func streamSweep(env *vh.Env, rep *vh.Report, rng *vh.Rng, encs []enc) {
 			var ref []byte
 			refOK := vh.Guard(func() { ref = reencode(decodeIn(e.kind, gio.NewDataInputX(e.b), e.b)) }).OK()
 			for pi, plan := range fragPlans {
-				end := []int{endEOFAfter, endErrAfter}[pi%2]
+				end := []int{1, 3, 5, 7, 9}[pi%5] // the end is signalled after the data
 				var got []byte
 				o := vh.Guard(func() { obj := decodeStream(e.kind, e.b, plan, end); got = reencode(obj) })
 				local["stream:full:"+o.String()]++
@@ -144,7 +157,7 @@ func streamSweep(env *vh.Env, rep *vh.Report, rng *vh.Rng, encs []enc) {
 					ml = append(ml, mline{"C " + planStr(pi) + " " + e.kind[5:] + " " + vh.Hex(e.b), o.OK(),
 						replayCase{Mode: "stream", Kind: e.kind, Typ: e.typ, Hex: vh.Hex(e.b), N: len(e.b), What: strconv.Itoa(pi) + ":" + strconv.Itoa(end)}})
 				}
-				what := fmt.Sprintf("fragments %v, %s", plan, endNames[end])
+				what := fmt.Sprintf("fragments %v, %s", plan, endName(end))
 				if refOK && !o.OK() {
 					fs = append(fs, finding{"stream-rejects-complete:" + e.typ, e.typ + ": the complete encoding is refused when it arrives over a connection (" + what + "): " + vh.Clip(o.Panic, 80),
 						replayCase{Mode: "stream", Kind: e.kind, Typ: e.typ, Hex: vh.Hex(e.b), N: len(e.b), What: strconv.Itoa(pi) + ":" + strconv.Itoa(end)}, "property"})
@@ -158,17 +171,17 @@ func streamSweep(env *vh.Env, rep *vh.Report, rng *vh.Rng, encs []enc) {
 			for _, n := range lens {
 				pi := r.Intn(len(fragPlans))
 				end := r.Intn(endModes)
-				if n%3 == 0 {
+				if n%5 == 0 {
 					end = endEOFWithData
 				}
 				o := vh.Guard(func() { decodeStream(e.kind, e.b[:n], fragPlans[pi], end) })
-				local["stream-prefix:"+endNames[end]+":"+o.String()]++
+				local["stream-prefix:"+endName(end)+":"+o.String()]++
 				if strings.HasPrefix(e.kind, "prim:") {
 					ml = append(ml, mline{"C " + planStr(pi) + " " + e.kind[5:] + " " + vh.Hex(e.b[:n]), o.OK(),
 						replayCase{Mode: "stream", Kind: e.kind, Typ: e.typ, Hex: vh.Hex(e.b), N: n, What: strconv.Itoa(pi) + ":" + strconv.Itoa(end)}})
 				}
 				if o.OK() {
-					fs = append(fs, finding{"stream-short-read-accepted", fmt.Sprintf("%s: a connection that ends after %d of the %d bytes of a valid encoding (fragments %v, %s) decodes to an object: a read was answered with bytes that were never received", e.typ, n, len(e.b), fragPlans[pi], endNames[end]),
+					fs = append(fs, finding{"stream-short-read-accepted", fmt.Sprintf("%s: a connection that ends after %d of the %d bytes of a valid encoding (fragments %v, %s) decodes to an object: a read was answered with bytes that were never received", e.typ, n, len(e.b), fragPlans[pi], endName(end)),
 						replayCase{Mode: "stream", Kind: e.kind, Typ: e.typ, Hex: vh.Hex(e.b), N: n, What: strconv.Itoa(pi) + ":" + strconv.Itoa(end)}, "property"})
 				}
 			}
